@@ -981,6 +981,30 @@ func (e *CEnv) call(ex *CExpr) Value {
 	case "fresh":
 		need(1)
 		return e.x.isFresh(e.st, e.old, ev(0))
+	case "kept":
+		// kept(s): the elements the slice s viewed on entry are the same on exit (nothing wrote through the entry view)
+		need(1)
+		if e.old == nil {
+			cfail("kept() outside a postcondition")
+		}
+		oe := e.withState(e.old)
+		sv, ok := oe.deref(oe.eval(args[0])).(*SliceVal)
+		if !ok {
+			cfail("kept() of a non-slice")
+		}
+		was, now := e.x.region(e.old, sv.Reg), e.x.region(e.st, sv.Reg)
+		if was == now {
+			return TTrue
+		}
+		if was.Arr != nil && now.Arr != nil {
+			j := Const(fmt.Sprintf("j!q%d", e.x.nextQ()), SInt)
+			return Forall([]*Term{j}, Implies(And(Le(sv.Off, j), Lt(j, Add(sv.Off, sv.Len))), Eq(Select(now.Arr, j), Select(was.Arr, j))), Select(now.Arr, j))
+		}
+		if was.Bytes != nil && now.Bytes != nil {
+			return Eq(Take(Drop(now.Bytes, sv.Off), sv.Len), Take(Drop(was.Bytes, sv.Off), sv.Len))
+		}
+		cfail("kept() across representations")
+		return nil
 	case "sameRegion":
 		need(2)
 		a, b := ev(0).(*SliceVal), ev(1).(*SliceVal)
